@@ -13,9 +13,11 @@ import (
 	"sort"
 	"strings"
 	"sync"
+	"sync/atomic"
 	"time"
 
 	"github.com/GoogleCloudPlatform/grpc-gcp-go/grpcgcp"
+	pb "github.com/GoogleCloudPlatform/grpc-gcp-go/grpcgcp/grpc_gcp"
 	"github.com/GoogleCloudPlatform/grpc-gcp-go/grpcgcp/multiendpoint"
 	hw "github.com/GoogleCloudPlatform/grpc-gcp-go/grpcgcp/test_grpc/helloworld/helloworld"
 	"google.golang.org/grpc"
@@ -48,13 +50,15 @@ func (s *gsrv) RepeatHello(st hw.Greeter_RepeatHelloServer) error {
 }
 
 type gep struct {
-	name  string
-	lis   *bufconn.Listener
-	gs    *grpc.Server
-	mu    sync.Mutex
-	up    bool
-	conns []net.Conn
-	dials int
+	name   string
+	lis    *bufconn.Listener
+	gs     *grpc.Server
+	mu     sync.Mutex
+	up     bool
+	conns  []net.Conn
+	dials  int
+	live   int
+	closed int64
 }
 
 func newGEP(name string) *gep {
@@ -72,10 +76,33 @@ func (e *gep) dial(ctx context.Context, _ string) (net.Conn, error) {
 	}
 	c, err := e.lis.DialContext(ctx)
 	if err == nil {
+		c = &trackedConn{Conn: c, ep: e}
 		e.conns = append(e.conns, c)
 		e.dials++
+		e.live++
 	}
 	return c, err
+}
+
+// trackedConn counts live transport connections of an endpoint.
+type trackedConn struct {
+	net.Conn
+	ep   *gep
+	once sync.Once
+}
+
+func (t *trackedConn) Close() error {
+	t.once.Do(func() {
+		// the endpoint's mutex may be held by set(): count without it
+		atomic.AddInt64(&t.ep.closed, 1)
+	})
+	return t.Conn.Close()
+}
+
+func (e *gep) liveConns() int {
+	e.mu.Lock()
+	defer e.mu.Unlock()
+	return e.live - int(atomic.LoadInt64(&e.closed))
 }
 
 func (e *gep) set(up bool) {
@@ -142,6 +169,8 @@ type Case struct {
 	Property  string  `json:"property,omitempty"`
 	StartDown []int   `json:"startDown"`
 	BadInit   string  `json:"badInit,omitempty"` // construct with invalid options first (must fail and leave nothing behind)
+	MinSize   int     `json:"minSize,omitempty"` // channel pool minSize of the gRPC-GCP config handed to GCPMultiEndpoint (0 = absent)
+	MaxSize   int     `json:"maxSize,omitempty"`
 	Init      Options `json:"init"`
 	Ops       []Op    `json:"ops"`
 	Failure   *Fail   `json:"failure,omitempty"`
@@ -603,6 +632,13 @@ func Run(c *Case, props map[string]bool) (res Result) {
 	}
 	o, model, def := c.Init.build(w)
 	w.failAt, w.dialsInCall = 0, 0
+	live0s := map[string]int{}
+	for n, e := range all {
+		live0s[n] = e.liveConns()
+	}
+	if c.MinSize > 0 || c.MaxSize > 0 {
+		o.GRPCgcpConfig = &pb.ApiConfig{ChannelPool: &pb.ChannelPoolConfig{MinSize: uint32(c.MinSize), MaxSize: uint32(c.MaxSize)}}
+	}
 	gme, err := grpcgcp.NewGCPMultiEndpoint(o)
 	if err != nil {
 		w.fail("C15", "construct", "NewGCPMultiEndpoint rejected valid options: %v", err)
@@ -612,6 +648,35 @@ func Run(c *Case, props map[string]bool) (res Result) {
 	w.noteTimers(o)
 	w.settle("create", "C15")
 	w.checkPools("create")
+	// C17: every pool opens max(1, minSize) transport connections (counted at the in-memory dialer)
+	{
+		want := c.MinSize
+		if want < 1 {
+			want = 1
+		}
+		for e := range mentioned(model) {
+			if !w.up[e] {
+				continue
+			}
+			ep := all[e]
+			live0 := live0s[e]
+			// at least max(1,minSize) connections; grpc-go may replace a still connecting subchannel when the
+			// balancer pushes the (same) address list right after creating it, and does not always close the
+			// abandoned transport promptly, so up to one extra connection per channel is tolerated
+			stable := 0
+			for dl := time.Now().Add(5 * time.Second); stable < 5; time.Sleep(time.Millisecond) {
+				if n := ep.liveConns() - live0; n >= want && n <= 2*want {
+					stable++
+				} else {
+					stable = 0
+					if time.Now().After(dl) {
+						w.fail("C17", "gme-min-size", "pool of %s holds %d live transport connections 5s after construction; effective minSize is %d (configured %d), expected %d..%d", e, n, want, c.MinSize, want, 2*want)
+					}
+				}
+			}
+			w.labels["pool-transport-connections-checked"]++
+		}
+	}
 	if len(model) >= 2 {
 		w.labels["several-multiendpoints"]++
 	}
